@@ -27,7 +27,8 @@ def arc_points(rng):
 class C17(Property):
     id = "C17"
     lean_module = "RosuModel.Props.C17Full"   # imports Props/C17ArcEnd.lean (→ Props/C17Arc.lean, Props/C17Ends.lean, Props/C17.lean) and Props/C17ArcTol.lean; all in namespace Rosu.C17
-    theorem_modules = ['RosuModel.Props.C17ArcEnd', 'RosuModel.Props.C17ArcTol', 'RosuModel.Props.C17Bezier', 'RosuModel.Props.C17CatmullChord', 'RosuModel.Props.C17Catmull', 'RosuModel.Props.C17BezierCubic', 'RosuModel.Props.C17BezierQuartic', 'RosuModel.Props.C17BezierQuintic']   # files whose top-level theorems are all audited
+    theorem_modules = ['RosuModel.Props.C17ArcEnd', 'RosuModel.Props.C17ArcTol', 'RosuModel.Props.C17Bezier', 'RosuModel.Props.C17CatmullChord', 'RosuModel.Props.C17Catmull', 'RosuModel.Props.C17BezierCubic', 'RosuModel.Props.C17BezierQuartic', 'RosuModel.Props.C17BezierQuintic', 'RosuModel.Props.C17BezierSextic', 'RosuModel.Props.C17BezierSeptic',
+                       'RosuModel.Props.C17BezierOctic', 'RosuModel.Props.C17BezierNonic', 'RosuModel.Props.C17BezierDecic', 'RosuModel.Props.C17BezierDeg11']   # files whose top-level theorems are all audited
     namespace = "Rosu.C17"
     design_ref = "5.17"
     level_text = (
@@ -70,7 +71,9 @@ class C17(Property):
         "compared with independently evaluated exact curves (De Casteljau, circle through three points, Catmull-Rom polynomial, polyline) "
         "in both directions with bounds derived from the constants 0.25 / 0.1 (arc: 0.4 for curve → path, the proved bound) / 50 steps, and the model is tied to the code bit-for-bit.")
     technique = "Lean 4 proof of the structural part and, over the reals, of the end-point and arc-tolerance clauses + bit-exact differential correspondence + independent exact-curve oracle (test)"
-    required_theorems = ["flatPiece_quartic", "flatPiece_quintic", "quarticW2_sub_curve", "comb3_sq_le", "comb4_sq_le", "flat_piece_quartic_within", "flat_piece_quintic_within",
+    required_theorems = ["bezier_within_tolerance_quarter_sextic", "bezier_within_tolerance_quarter_septic", "bezier_within_tolerance_quarter_octic", "bezier_within_tolerance_quarter_nonic",
+                         "bezier_within_tolerance_quarter_decic", "bezier_within_tolerance_quarter_deg11", "bezier_deg11_within", "comb_step", "flatPiece_sextic", "flatPiece_deg11",
+                         "flatPiece_quartic", "flatPiece_quintic", "quarticW2_sub_curve", "comb3_sq_le", "comb4_sq_le", "flat_piece_quartic_within", "flat_piece_quintic_within",
                          "bezier_quartic_within", "bezier_quintic_within", "bezier_within_tolerance_quarter_quartic", "bezier_within_tolerance_quarter_quintic",
                          "flatPiece_cubic", "cubicW1_sub_curve", "cubicW2_sub_curve", "comb_sq_le", "flat_cubic_second_differences", "flat_piece_cubic_within",
                          "flat_piece_within_tolerance_cubic", "quarter_admissible", "bezier_cubic_within", "bezier_within_tolerance_cubic", "bezier_within_tolerance_quarter",
@@ -97,6 +100,12 @@ class C17(Property):
                          "arc_eps_branch_violates", "arcProps_real_range", "arc_piece_within", "arc_within_tolerance_real",
                          "halfCircle_accepted", "halfCircle_exceeds_tolerance"]
     partial_theorems = {
+        "bezier_within_tolerance_quarter_deg11 (… sextic, septic, octic, nonic, decic)": "Props/C17BezierSextic.lean … C17BezierDeg11.lean (sixth session, wave 11; generated by tools/c17_bezier_gen.py from exact "
+            "coefficients computed by tools/c17_bezier_consts.py, each file checked by the kernel like any other): the Bezier clause for control-point lists of AT MOST TWELVE points (degree 11) — "
+            "bezier_within_tolerance_upto P 12 0.25: every vertex approximate_bezier pushes is within BEZIER_TOLERANCE of the exact curve, exact arithmetic. Constants K (distance ≤ K·tol): 5/24, 17/56, 3/8, "
+            "31/72, 19/40, 49/88 for 7…12 points, each attained on an extremal polygon (kernel-evaluated on ℚ); all coefficients have one sign and for an even degree the middle pushed vertex is exactly B(1/2). "
+            "comb_step (Cauchy–Schwarz without a square root, iterated) replaces the fixed-arity lemmas. The method's constant stays ≤ 1 up to 19 control points (computed exactly up to degree 40: 71/72 at "
+            "degree 18, 161/152 > 1 at degree 19), so beyond that this argument yields K·tol only; 13–19 points are generated but not built (build time grows 1.5× per degree), longer polygons and IEEE stay tested",
         "bezier_within_tolerance_quarter_quintic / bezier_within_tolerance_quarter_quartic": "Props/C17BezierQuartic.lean, Props/C17BezierQuintic.lean (sixth session, wave 9): the same method carried to five and six control "
             "points — bezier_within_tolerance_upto P 5 0.25 and … P 6 0.25: every vertex approximate_bezier pushes for a segment of at most SIX control points is within BEZIER_TOLERANCE of the exact curve "
             "(exact arithmetic). The curve parameter that eliminates first differences is i/n throughout; quartic: w2 lies ON the curve (quarticW2_sub_curve), squared bound 1/1024 = (tol/8)²; quintic: "
